@@ -1,14 +1,23 @@
-import Cello.Iter
+import Cello.IterExpr
 import Driver.Common
 /- driver for engine `iter` (C11).
 
    op file:  `V <expr>`   as `W` (the harness builds the top-level view with the stack macros of Cello.h; same model)
              `W <expr>`   build the iterable, walk it forwards (iter_init / iter_next) and backwards (iter_last / iter_prev),
                            ask len and get(0 … len-1);   prints
-                 O f=[items] fe=<term|ub|hang|fuel> b=[items] be=<…> len=<n|-> get=[values|!]     or   O construct=<Exception>
+                 O f=[items] fe=<term|ub|hang|fuel> b=[items] be=<…> len=<n|-> get=[values|!] gx=[get(-1) get(-len) get(-len-1) get(len)]
+                 or   O construct=<Exception>
              `S <n> <a> <b> <c>`  Slice_Arg / slice_stack only: prints  O range=<start>,<stop>,<step> len=<Range_Len>
    expr ::= (array v*) | (list v*) | (tuple id*) | (table s*) with s = `.` | key | (tree S) with S = `.` | (S k S) | (rtree k*)
-          | (range a*) | (slice E a*) | (reverse E) | (zip E*) | (enum E) | (filter E m r) | (map E a b)       a = int | `_` -/
+          | (range a*) | (slice E a*) | (reverse E) | (zip E*) | (enum E) | (filter E m r) | (map E a b)       a = int | `_`
+          | (mut list (v*) sop*) | (mut array (v*) sop*) | (mut table (k*) kop*) | (mut tree (k*) kop*)
+            sop ::= (push v) | (pop) | (push_at v i) | (pop_at i) | (rem v) | (put i v) | (concat v*) | (resize n)
+            kop ::= (set k) | (rem k) | (resize n)
+             `L <mut expr>`  white-box layout after the history, with the outcome of every mutation (`.` ok, I V K F the exception):
+                 O links out=:… nitems= head= tail= vals=[…] prev=[…]   (List: the chain from head along next, by position)
+                 O store out=:… nitems= nslots= vals=[…]                (Array)
+                 O slots out=:… nitems= nslots= [i:key …]               (Table)
+                 O tree out=:… nitems= keys=[…]                         (Tree: in-order over the child pointers) -/
 open Cello.Iter
 
 namespace IterDrv
@@ -31,6 +40,51 @@ def takeAtoms {β : Type} (f : String → Option β) : List String → Option (L
   | t :: rest => match f t, takeAtoms f rest with
     | some v, some (vs, rest') => some (v :: vs, rest')
     | _, _ => none
+
+
+def parseNat? (s : String) : Option Nat := s.toNat?
+
+/-- one mutation of a sequence container: tokens after `(` up to and including `)` -/
+def parseSOp : List String → Option (SOp Int × List String)
+  | "push" :: v :: ")" :: r => (v.toInt?).map fun v => (.push v, r)
+  | "pop" :: ")" :: r => some (.pop, r)
+  | "push_at" :: v :: i :: ")" :: r => match v.toInt?, i.toInt? with
+    | some v, some i => some (.pushAt v i, r)
+    | _, _ => none
+  | "pop_at" :: i :: ")" :: r => (i.toInt?).map fun i => (.popAt i, r)
+  | "rem" :: v :: ")" :: r => (v.toInt?).map fun v => (.rem v, r)
+  | "put" :: i :: v :: ")" :: r => match i.toInt?, v.toInt? with
+    | some i, some v => some (.put i v, r)
+    | _, _ => none
+  | "concat" :: rest => (takeAtoms parseInt? rest).map fun (vs, r) => (.concat vs, r)
+  | "resize" :: n :: ")" :: r => (n.toNat?).map fun n => (.resize n, r)
+  | _ => none
+
+def parseKOp : List String → Option (KOp × List String)
+  | "set" :: k :: ")" :: r => (k.toInt?).map fun k => (.set k, r)
+  | "rem" :: k :: ")" :: r => (k.toInt?).map fun k => (.rem k, r)
+  | "resize" :: n :: ")" :: r => (n.toNat?).map fun n => (.resize n, r)
+  | _ => none
+
+/-- `(op …)*` up to the closing `)` of the `mut` form -/
+partial def parseOps {β : Type} (f : List String → Option (β × List String)) : List String → Option (List β × List String)
+  | ")" :: rest => some ([], rest)
+  | "(" :: rest => match f rest with
+    | some (op, r) => (parseOps f r).map fun (ops, r') => (op :: ops, r')
+    | none => none
+  | _ => none
+
+def parseMut : List String → Option (Expr × List String)
+  | kind :: "(" :: rest =>
+    match takeAtoms parseInt? rest with
+    | some (init, r) =>
+      if kind = "list" then (parseOps parseSOp r).map fun (ops, r') => (.mlist init ops, r')
+      else if kind = "array" then (parseOps parseSOp r).map fun (ops, r') => (.marray init ops, r')
+      else if kind = "table" then (parseOps parseKOp r).map fun (ops, r') => (.mtable init ops, r')
+      else if kind = "tree" then (parseOps parseKOp r).map fun (ops, r') => (.mtree init ops, r')
+      else none
+    | none => none
+  | _ => none
 
 partial def parseTree : List String → Option (T Int × List String)
   | "." :: rest => some (.nil, rest)
@@ -83,6 +137,7 @@ partial def parseExpr : List String → Option (Expr × List String)
       | _, _ => none
     | _ => none
   | "(" :: "zip" :: rest => (parseExprs rest).map fun (es, r) => (.zip es, r)
+  | "(" :: "mut" :: rest => parseMut rest
   | _ => none
 partial def parseExprs : List String → Option (List Expr × List String)
   | ")" :: rest => some ([], rest)
@@ -98,6 +153,7 @@ def showItems (l : List Val) (e : End := .term) : String :=
 
 def excOf : String → String
   | "no-len" => "ClassError"
+  | "mut-undef" => "Undefined"
   | _ => "FormatError"
 
 def report (e : Expr) : String :=
@@ -111,7 +167,52 @@ def report (e : Expr) : String :=
       | some n, some g => "[" ++ " ".intercalate ((List.range n).map fun (i : Nat) => match g (Int.ofNat i) with
           | some v => v.show | none => "!") ++ "]"
       | _, _ => "-"
-    s!"O f={showItems f fe} fe={fe.show} b={showItems b be} be={be.show} len={lenS} get={getS}"
+    -- get at and beyond the ends: -1, -len, -len-1, len
+    let gxS := match I.len, I.get with
+      | some n, some g => "[" ++ " ".intercalate ([(-1 : Int), -(n : Int), -(n : Int) - 1, (n : Int)].map fun k => match g k with
+          | some v => v.show | none => "!") ++ "]"
+      | _, _ => "-"
+    s!"O f={showItems f fe} fe={fe.show} b={showItems b be} be={be.show} len={lenS} get={getS} gx={gxS}"
+
+
+def outStr (os : List MOut) : String := ":" ++ String.join (os.map MOut.char)
+def ints (l : List Int) : String := "[" ++ " ".intercalate (l.map toString) ++ "]"
+
+def posOf (addrs : List Nat) : Option Nat → String
+  | none => "-"
+  | some a => match addrs.findIdx? (· == a) with
+    | some i => toString i
+    | none => "?"
+
+/-- the white-box layout line of a mutated container (`L` op) -/
+def layout : Expr → String
+  | .mlist init ops =>
+    match LL.new init with
+    | (l0, .ok) =>
+      let (l, os) := LL.run 0 l0 ops
+      if os.contains .undef then "O mut-undef" else
+      let ch := l.chain (l.nitems + 2) l.head
+      let addrs := ch.map (·.1)
+      let prevs := ch.map (fun c => posOf addrs c.2.2)
+      s!"O links out={outStr os} nitems={l.nitems} head={posOf addrs l.head} tail={posOf addrs l.tail} vals={ints (ch.map (·.2.1))} prev=[{" ".intercalate prevs}]"
+    | _ => "O mut-undef"
+  | .marray init ops =>
+    match AR.new init with
+    | (a0, .ok) =>
+      let (a, os) := AR.run a0 ops
+      if os.contains .undef then "O mut-undef" else
+      let vals := (a.store.take a.nitems).map (fun c => match c with | some v => toString v | none => "?")
+      s!"O store out={outStr os} nitems={a.nitems} nslots={a.store.length} vals=[{" ".intercalate vals}]"
+    | _ => "O mut-undef"
+  | .mtable init ops =>
+    let (t, os) := tabRun (Cello.Table.new tabCfg) (init.map KOp.set ++ ops)
+    if os.contains .undef then "O mut-undef" else
+    let cells := ((tabSlots t).zipIdx.filterMap (fun (c : Option Int × Nat) => c.1.map (fun k => s!"{c.2}:{k}")))
+    s!"O slots out={outStr (os.drop init.length)} nitems={t.nitems} nslots={t.n} [{" ".intercalate cells}]"
+  | .mtree init ops =>
+    let (m, os) := treeRun ⟨.nil, 0⟩ (init.map KOp.set ++ ops)
+    s!"O tree out={outStr (os.drop init.length)} nitems={m.nitems} keys={ints m.root.inorder}"
+  | _ => "O bad-op"
 
 end IterDrv
 
@@ -122,6 +223,10 @@ def main (args : List String) : IO Unit := do
     if l.startsWith "W " || l.startsWith "V " then
       match IterDrv.parseExpr (IterDrv.tokenize (l.drop 2).toString) with
       | some (e, []) => IO.println (IterDrv.report e)
+      | _ => IO.println "O bad-op"
+    else if l.startsWith "L " then
+      match IterDrv.parseExpr (IterDrv.tokenize (l.drop 2).toString) with
+      | some (e, []) => IO.println (IterDrv.layout e)
       | _ => IO.println "O bad-op"
     else if l.startsWith "S " then
       match (Driver.words (l.drop 2).toString) with
